@@ -1100,6 +1100,11 @@ class ComputeGraph(MultiDiGraph):
             lambda e: isinstance(e, Derivative) and e.expr.func.__name__ in ('absv', 'abs'),
             lambda e: Function('sign')(e.expr.args[0])
         )
+        # sign(x) is piecewise constant: its derivative vanishes (wherever it exists)
+        expr = expr.replace(
+            lambda e: isinstance(e, Derivative) and e.expr.func.__name__ == 'sign',
+            lambda e: sp.Integer(0)
+        )
         # inverse trigonometric functions carry their numpy names (arctan, ...), which sympy does not know
         expr = expr.replace(
             lambda e: isinstance(e, Derivative) and e.expr.func.__name__ == 'arctan',
